@@ -1190,3 +1190,57 @@ func substParams(f Affine, callee *ssa.Function, args []ssa.Value) (Affine, bool
 	}
 	return out, true
 }
+
+// rulePartialField (T6): a size that is computed from one byte of a multi-byte
+// wire field. A length kept as [N]byte (N <= 8) is an integer; a size, bound or
+// count derived from a constant-index element of it must use every byte of the
+// field, otherwise values above 255 are silently truncated.
+func (c *Ctx) rulePartialField(rule string, in func(*ssa.Function) bool) int {
+	n := 0
+	counts := map[string]int{}
+	for _, s := range c.collectSinks() {
+		if in != nil && !in(s.fn) {
+			continue
+		}
+		type key struct {
+			base  string
+			field string
+		}
+		seen := map[key]map[int64]bool{}
+		size := map[key]int64{}
+		for _, subj := range s.subjects {
+			if subj == nil {
+				continue
+			}
+			for v := range c.sliceOf(subj) {
+				ia, ok := v.(*ssa.IndexAddr)
+				if !ok {
+					continue
+				}
+				k, isK := ir.ConstInt(ia.Index)
+				fa, isF := ia.X.(*ssa.FieldAddr)
+				if !isK || !isF {
+					continue
+				}
+				arr, isArr := fa.Type().Underlying().(*types.Pointer).Elem().Underlying().(*types.Array)
+				if !isArr || binarySize(arr.Elem()) != 1 || arr.Len() < 2 || arr.Len() > 8 {
+					continue
+				}
+				kk := key{ir.AccessPath(fa.X), ir.FieldID(fa)}
+				if seen[kk] == nil {
+					seen[kk] = map[int64]bool{}
+				}
+				seen[kk][k] = true
+				size[kk] = arr.Len()
+			}
+		}
+		for kk, idx := range seen {
+			n++
+			ck := ordinalKey(counts, name(s.fn)+":"+shortID(kk.field))
+			c.R.Check(int64(len(idx)) == size[kk], rule, name(s.fn), strings.TrimPrefix(ck, name(s.fn)+":"), c.IPos(s.instr),
+				"a size derived from a multi-byte wire field uses all of its bytes",
+				fmt.Sprintf("the size at this site is computed from %d of the %d bytes of %s: larger values are truncated", len(idx), size[kk], shortID(kk.field)))
+		}
+	}
+	return n
+}
